@@ -657,6 +657,15 @@ class ExprMixin:
 
     # ---- attribute / subscript
     def e_Attribute(self, node, st):
+        if isinstance(node.value, ast.Name) and node.value.id == "self":
+            # attributes of the estimator are modelled as variables named "self.<attr>" (declared in the contract's locals/params)
+            key = "self." + node.attr
+            if key in st.vars:
+                v, d = st.vars[key]
+                if d is not True and not self.spec:
+                    self.oblige(st, "defined", node, d if d is not False else z3.BoolVal(False), "attribute '%s' may be unset" % key)
+                return v
+            raise VCError("attribute %s not declared in the contract (line %d)" % (key, node.lineno))
         if isinstance(node.value, ast.Name) and node.value.id not in st.vars:
             g = self.global_attr(node.value.id, node.attr)
             if g is not None:
